@@ -107,6 +107,7 @@ def run(args):
     try:
         files = [os.path.join(core.REPO, 'tests', 'scanner', '%s-1.0-expected.gir' % x) for x in ('Headeronly', 'Identfilter', 'Symbolfilter', 'SLetter')]
         cases = [(args.seed, i, tmpdir, 'scanner') for i in range(n)] + [(args.seed, 100000 + k, tmpdir, f) for k, f in enumerate(files)]
+        cases = core.replay_cases(args, cases, lambda sd, i, mode: (sd, i, tmpdir, mode))
         B = 4
         batches = [cases[k:k + B] for k in range(0, len(cases), B)]
         for _, b, results in core.forkmap(lambda bb: [run_case(c) for c in bb], batches, isolated=False):
